@@ -135,6 +135,18 @@ def fit_util_plain(data, noise_map, model_data, reg, lc, lr):
                                                         noise_covariance_matrix_inv=np.diag(1.0 / noise_map ** 2))
         if not _close(got, chi2):
             return "chi_squared_with_noise_covariance_from(diag(1/noise^2)) != sum((residual/noise)^2)"
+    # the dimensionless maps do not depend on the unit of the data: residual and noise scaled together by a power of two (exact
+    # in floating point) far from 1 give bit-identical normalized residuals and chi-squared maps -- unless an intermediate
+    # (a square of the residual or of the noise taken separately) leaves the floating-point range
+    if np.all(np.abs(r) < 1e100) and np.all(noise_map < 1e100) and np.all((r == 0.0) | (np.abs(r) > 1e-100)):
+        for f in (2.0 ** -520, 2.0 ** 500):
+            got = np.asarray(fu.chi_squared_map_from(residual_map=r * f, noise_map=noise_map * f))
+            if got.shape != c.shape or not np.array_equal(got, c):
+                return "chi_squared_map_from(residual * 2^%d, noise * 2^%d) = %r, the same ratios give %r" % (
+                    int(np.log2(f)), int(np.log2(f)), got.tolist(), c.tolist())
+            got = np.asarray(fu.normalized_residual_map_from(residual_map=r * f, noise_map=noise_map * f))
+            if got.shape != nr.shape or not np.array_equal(got, nr):
+                return "normalized_residual_map_from is not invariant under a common rescaling by 2^%d" % int(np.log2(f))
     if not (np.array_equal(d, data) and np.array_equal(n, noise_map) and np.array_equal(m, model_data)):
         return "an input array was modified in place"
     return None
